@@ -198,7 +198,8 @@ class Run:
             'assumptions': self.assumptions,
             'wall_s': round(wall, 2), 'violations': n_viol,
         }
-        evdir = os.path.join(VERIF, 'evidence' if not getattr(self, 'dev', False) else 'evidence_dev')
+        # development runs and evaluations of seeded changes (VERIF_EVIDENCE_DIR) never touch the committed evidence
+        evdir = os.environ.get('VERIF_EVIDENCE_DIR') or os.path.join(VERIF, 'evidence' if not getattr(self, 'dev', False) else 'evidence_dev')
         os.makedirs(evdir, exist_ok=True)
         with open(os.path.join(evdir, f'{self.pid}.json'), 'w') as f:
             json.dump(ev, f, indent=1)
